@@ -120,6 +120,7 @@ fn gen_program(seed: u64, id: u64, focus: &str, thorough: bool) -> Program {
         "C17" => "readwrite",
         "C06" => *rng.pick(&["readwrite", "writers", "readers-long"]),
         "C07" => *rng.pick(&["writers", "writers", "abort"]),
+        "C12" => *rng.pick(&["checkpointing", "checkpointing", "writers"]),
         "C08" => "orphans",
         "C13" => "abort",
         "C15" => *rng.pick(&["writers", "readwrite", "orphans", "mixed", "mixed"]),
@@ -227,6 +228,19 @@ fn gen_program(seed: u64, id: u64, focus: &str, thorough: bool) -> Program {
                     }
                 }
                 "writers" => writer_op(&mut rng, &setup),
+                "checkpointing" => {
+                    // explicit checkpoints against writers: the bookkeeping must come out exact
+                    // wherever a mutation lands relative to the checkpoint's phases
+                    if w == 0 {
+                        WOp::Checkpoint
+                    } else {
+                        let mut op = writer_op(&mut rng, &setup);
+                        while matches!(op, WOp::Checkpoint) {
+                            op = writer_op(&mut rng, &setup);
+                        }
+                        op
+                    }
+                }
                 "readwrite" => {
                     if w == 0 || (w == 2 && rng.chance(1, 2)) {
                         writer_op(&mut rng, &setup)
@@ -1010,6 +1024,29 @@ fn run_and_judge(prog: &Program, strategy: Strategy, serial: bool, focus: &str) 
                 "quiescent counts",
                 format!("{} blobs known, {} referenced", counts.len(), want_counts.len()),
             ));
+        }
+        // statistics agree with the index they describe
+        let (st, want_unique, want_bytes) = {
+            let g = ctx.cas.read_index_state();
+            let mut sizes: BTreeMap<Hash32, u64> = BTreeMap::new();
+            for (_, i) in g.iter() {
+                sizes.insert(i.blob_hash.0, i.blob_size);
+            }
+            (g.stats(), sizes.len() as u64, sizes.values().sum::<u64>())
+        };
+        if st.cas.unique_blobs != want_unique || st.cas.total_bytes != want_bytes {
+            findings.push(Finding::new(
+                &["C12"],
+                "statistics differ from the index contents after a concurrent run",
+                "quiescent stats",
+                format!(
+                    "index holds {want_unique} distinct contents / {want_bytes} bytes; stats say {} / {}",
+                    st.cas.unique_blobs, st.cas.total_bytes
+                ),
+            ));
+        }
+        if ctx.cas.stats() != st {
+            findings.push(Finding::new(&["C12"], "stats() and guard.stats() disagree at quiescence", "quiescent stats", String::new()));
         }
         let on_disk: BTreeSet<String> = fsx::files_rec(&ctx.root.join("cas")).into_iter().collect();
         if on_disk != referenced {
